@@ -54,12 +54,23 @@ def systems(tier):
     # declared cyclic molecules: the ring closing residue has a second positioned bonded neighbour
     out.append(dict(types=["RING4"], molecules=[("RING4", 2)], kwargs=dict(cycles=["RING4"], cycle_tol=0.3), **base))
     out.append(dict(types=["RING5"], molecules=[("RING5", 1)], kwargs=dict(cycles=["RING5"], cycle_tol=0.3), bundle="axis+face18", devs=1, **base))
+    # polyply's own start grid (no -grid file) in a strongly non-cubic box: every grid point is tried as the first start
+    out.append(dict(types=["CH3"], molecules=[("CH3", 1)], box=[2.0, 3.0, 4.0], grid=None, kwargs=dict(grid_spacing=1.0), own_grid=True))
     if tier == "thorough":
         for b in ("axis+diag14", "axis+face18"):
             out.append(dict(types=["CH4"], molecules=[("CH4", 2)], bundle=b, **base))
             out.append(dict(types=["BR4", "W"], molecules=[("W", 1), ("BR4", 1)], bundle=b, **base))
         out.append(dict(types=["CH3", "W"], molecules=[("W", 4), ("CH3", 2), ("W", 2)], **base))
     return out
+
+
+def expected_grid(sysdef):
+    """the user's grid file, or (own_grid) the reference start grid: all multiples of the spacing inside the box"""
+    if not sysdef.get("own_grid"):
+        return sysdef.get("grid")
+    sp = sysdef["kwargs"]["grid_spacing"]
+    axes = [[k * sp for k in range(int(np.ceil(b / sp - 1e-12)))] for b in sysdef["box"]]
+    return [[x, y, z] for x in axes[0] for y in axes[1] for z in axes[2]]
 
 
 def cases(tier):
@@ -76,7 +87,7 @@ def judge(sysdef, res, choices):
     case1 = {"sys": sysdef, "choices": choices}
     if res["divergence"]:
         return [dict(assertion="harness-replay-divergence", tags=["harness"], message=res["divergence"], case=case1, detail={})], None
-    out, final = O.check_events(sysdef, res, grid=sysdef.get("grid"))
+    out, final = O.check_events(sysdef, res, grid=expected_grid(sysdef))
     for owner, assertion, msg, tags in out:
         if owner == "C05":
             viols.append(dict(assertion=assertion, tags=tags, message=msg + f" | choices={choices}", case=case1, detail={}))
